@@ -73,63 +73,107 @@ Definition refines (p : prog) (st : mstate) : Prop :=
   match r0 with
   | RNormal => r = MNormal /\ (active st = false -> active st' = false)
   | RRaised k m => obj st' = Some k /\ msg st' = m /\ r = jump_or_die st'
+  | RExit k => r = MExit k /\ (active st = false -> active st' = false)
   end.
 
-Lemma refine : forall p st, depth st + nesting p <= max -> refines p st.
+(* break / continue / return only leave what [exits_ok] lets them leave *)
+Lemma no_exit : forall p ret brk d c t k c',
+  exits_ok ret brk p = true -> ref_run d c p = (t, RExit k, c') ->
+  match k with XReturn => ret = true | _ => brk = true end.
 Proof.
-  induction p as [ | n | p IHp q IHq | k m f IHf | b IHb fs h IHh | p IHp ];
-    intros st Hbound tr r st' Hrun tr0 r0 c' Href; cbn [nesting] in Hbound.
+  induction p as [ | n | p IHp q IHq | o m f IHf | b IHb fs h IHh | k0 | p IHp ];
+    intros ret brk d c t k c' Hok H; cbn [ref_run exits_ok] in H, Hok.
+  - discriminate.
+  - discriminate.
+  - apply andb_true_iff in Hok. destruct Hok as (Hp & Hq).
+    destruct (ref_run d c p) as [[t1 r1] c1] eqn:R1. destruct r1 as [|k1 m1|k1].
+    + destruct (ref_run d c1 q) as [[t2 r2] c2] eqn:R2. inversion H; subst. eapply IHq; eassumption.
+    + discriminate.
+    + inversion H; subst. eapply IHp; eassumption.
+  - destruct (ref_run d c f) as [[t1 r1] c1] eqn:R1.
+    destruct r1 as [|k1 m1|[]]; cbn in H; try discriminate; inversion H; subst.
+    + specialize (IHf _ _ _ _ _ _ _ Hok R1). cbn in IHf. discriminate.
+    + specialize (IHf _ _ _ _ _ _ _ Hok R1). cbn in IHf. discriminate.
+  - apply andb_true_iff in Hok. destruct Hok as (Hb & Hh).
+    destruct (ref_run (S d) c b) as [[t1 r1] c1] eqn:R1. destruct r1 as [|k1 m1|k1].
+    + discriminate.
+    + destruct (matches fs k1); [|discriminate].
+      destruct (ref_run d c1 h) as [[t2 r2] c2] eqn:R2.
+      destruct r2 as [|k2 m2|[]]; cbn in H; try discriminate; inversion H; subst.
+      specialize (IHh _ _ _ _ _ _ _ Hh R2). exact IHh.
+    + inversion H; subst. specialize (IHb _ _ _ _ _ _ _ Hb R1). destruct k; discriminate.
+  - inversion H; subst. destruct k; exact Hok.
+  - destruct (ref_run d c p) as [[t1 r1] c1] eqn:R1.
+    destruct r1 as [|k1 m1|[]]; cbn in H; try discriminate; inversion H; subst.
+    + specialize (IHp _ _ _ _ _ _ _ Hok R1). cbn in IHp. discriminate.
+    + specialize (IHp _ _ _ _ _ _ _ Hok R1). cbn in IHp. discriminate.
+Qed.
+
+Lemma refine : forall p ret brk st,
+  exits_ok ret brk p = true -> depth st + nesting p <= max -> refines p st.
+Proof.
+  induction p as [ | n | p IHp q IHq | k m f IHf | b IHb fs h IHh | k0 | p IHp ];
+    intros ret brk st Hok Hbound tr r st' Hrun tr0 r0 c' Href; cbn [nesting] in Hbound; cbn [exits_ok] in Hok.
   - (* PSkip *)
     cbn in Hrun, Href. inversion Hrun; inversion Href; subst. repeat split; auto.
   - (* PTick *)
     cbn in Hrun, Href. inversion Hrun; inversion Href; subst. repeat split; auto.
   - (* PSeq *)
+    apply andb_true_iff in Hok. destruct Hok as (Hokp & Hokq).
     cbn [mrun ref_run] in Hrun, Href.
     destruct (run p st) as [[t1 r1] s1] eqn:E1.
     destruct (ref_run (depth st) (msg st) p) as [[t01 r01] c1] eqn:R1.
     assert (Hp : depth st + nesting p <= max) by lia.
-    destruct (IHp st Hp _ _ _ E1 _ _ _ R1) as (-> & Hb1 & Hm1 & Hres1).
-    destruct r01 as [ | k m].
+    destruct (IHp _ _ st Hokp Hp _ _ _ E1 _ _ _ R1) as (-> & Hb1 & Hm1 & Hres1).
+    destruct r01 as [ | k m | k].
     + destruct Hres1 as (-> & Hact1).
       destruct (run q s1) as [[t2 r2] s2] eqn:E2.
       rewrite <- (depth_bufs _ _ Hb1), <- Hm1 in Href.
       destruct (ref_run (depth s1) (msg s1) q) as [[t02 r02] c2] eqn:R2.
       assert (Hq : depth s1 + nesting q <= max) by (rewrite (depth_bufs _ _ Hb1); lia).
-      destruct (IHq s1 Hq _ _ _ E2 _ _ _ R2) as (-> & Hb2 & Hm2 & Hres2).
+      destruct (IHq _ _ s1 Hokq Hq _ _ _ E2 _ _ _ R2) as (-> & Hb2 & Hm2 & Hres2).
       inversion Hrun; inversion Href; subst.
       split; [reflexivity|]. split; [congruence|]. split; [reflexivity|].
-      destruct r0; [|exact Hres2].
-      destruct Hres2 as (-> & Hact2). split; [reflexivity|]. auto.
+      destruct r0; [| exact Hres2 |].
+      * destruct Hres2 as (-> & Hact2). split; [reflexivity|]. auto.
+      * destruct Hres2 as (-> & Hact2). split; [reflexivity|]. auto.
     + destruct Hres1 as (Ho & Hm & Hr1).
       assert (Hrun' : (t01, r1, s1) = (tr, r, st')).
       { rewrite Hr1 in *. unfold jump_or_die in *. destruct (bufs s1); exact Hrun. }
       inversion Hrun'; inversion Href; subst. repeat split; auto.
+    + destruct Hres1 as (-> & Hact1).
+      inversion Hrun; inversion Href; subst. repeat split; auto.
   - (* PThrow: the arguments are shown (program f), then the object is stored and raised *)
     cbn [mrun ref_run] in Hrun, Href. unfold throw_pre, throw_post in Hrun.
     destruct (run f st) as [[t1 r1] s1] eqn:E1.
     destruct (ref_run (depth st) (msg st) f) as [[t01 r01] c1] eqn:R1.
-    destruct (IHf st Hbound _ _ _ E1 _ _ _ R1) as (-> & Hb1 & Hm1 & Hres1).
-    destruct r01 as [ | k' m'].
-    + destruct Hres1 as (-> & _).
+    destruct (IHf _ _ st Hok Hbound _ _ _ E1 _ _ _ R1) as (-> & Hb1 & Hm1 & Hres1).
+    destruct r01 as [ | k' m' | k'].
+    + destruct Hres1 as (-> & _). cbn [fn_end rfn_end] in Hrun, Href.
       inversion Hrun; inversion Href; subst. cbn. repeat split; auto.
-    + destruct Hres1 as (Ho & Hm & Hr1).
+    + destruct Hres1 as (Ho & Hm & Hr1). cbn [rfn_end] in Href.
       assert (Hrun' : (t01, r1, s1) = (tr, r, st')).
       { rewrite Hr1 in *. unfold jump_or_die in *. destruct (bufs s1); exact Hrun. }
       inversion Hrun'; inversion Href; subst. repeat split; auto.
+    + destruct Hres1 as (-> & Hact1).
+      pose proof (no_exit _ _ _ _ _ _ _ _ Hok R1) as Hk.
+      destruct k'; try discriminate. cbn [fn_end rfn_end] in Hrun, Href.
+      inversion Hrun; inversion Href; subst. cbn. repeat split; auto.
   - (* PTry *)
+    apply andb_true_iff in Hok. destruct Hok as (Hokb & Hokh).
     cbn [mrun ref_run] in Hrun, Href.
     unfold exception_try in Hrun.
     assert (Hne : (depth st =? max) = false) by (apply Nat.eqb_neq; lia).
     rewrite Hne in Hrun.
-    set (s0 := MS (if tko then obj st else None) (msg st) (depth st :: bufs st) false) in *.
+    set (s0 := MS (if tko then obj st else None) (msg st) (S (depth st) :: bufs st) false) in *.
     assert (Hd0 : depth s0 = S (depth st)) by reflexivity.
     assert (Hm0 : msg s0 = msg st) by reflexivity.
     destruct (run b s0) as [[t1 r1] s1] eqn:E1.
     rewrite <- Hd0, <- Hm0 in Href.
     destruct (ref_run (depth s0) (msg s0) b) as [[t01 r01] c1] eqn:R1.
     assert (Hb : depth s0 + nesting b <= max) by (rewrite Hd0; lia).
-    destruct (IHb s0 Hb _ _ _ E1 _ _ _ R1) as (-> & Hb1 & Hm1 & Hres1).
-    destruct r01 as [ | k m].
+    destruct (IHb _ _ s0 Hokb Hb _ _ _ E1 _ _ _ R1) as (-> & Hb1 & Hm1 & Hres1).
+    destruct r01 as [ | k m | k].
     + (* body ended normally: pop, catch sees active = false *)
       destruct Hres1 as (-> & Hact1). specialize (Hact1 eq_refl).
       unfold exception_try_end in Hrun. rewrite Hb1 in Hrun. cbn [bufs s0] in Hrun.
@@ -152,15 +196,34 @@ Proof.
         rewrite <- Hd4, <- Hm4 in Href.
         destruct (ref_run (depth s4) (msg s4) h) as [[t02 r02] c2] eqn:R2.
         assert (Hh : depth s4 + nesting h <= max) by (rewrite Hd4; lia).
-        destruct (IHh s4 Hh _ _ _ E2 _ _ _ R2) as (-> & Hb2 & Hm2 & Hres2).
+        destruct (IHh _ _ s4 Hokh Hh _ _ _ E2 _ _ _ R2) as (-> & Hb2 & Hm2 & Hres2).
         inversion Hrun; inversion Href; subst.
         split; [now rewrite Hd4|]. split; [exact Hb2|]. split; [reflexivity|].
-        destruct r0; [|exact Hres2].
-        destruct Hres2 as (-> & Hact2). split; [reflexivity|]. intros _. exact (Hact2 eq_refl).
+        destruct r02 as [ | k2 m2 | k2 ].
+        -- destruct Hres2 as (-> & Hact2). cbn. split; [reflexivity|]. intros _. exact (Hact2 eq_refl).
+        -- destruct Hres2 as (Ho2 & Hm2' & ->). cbn [rhandler_end].
+           split; [exact Ho2|]. split; [exact Hm2'|].
+           unfold jump_or_die. destruct (bufs st'); reflexivity.
+        -- destruct Hres2 as (-> & Hact2).
+           destruct k2; cbn; (split; [reflexivity|]); intros _; exact (Hact2 eq_refl).
       * (* not for us: outwards *)
         inversion Hrun; inversion Href; subst. cbn. repeat split; auto.
+    + (* the body cannot be left by break / continue / return *)
+      pose proof (no_exit _ _ _ _ _ _ _ _ Hokb R1) as Hk. destruct k; discriminate.
+  - (* PExit *)
+    cbn in Hrun, Href. inversion Hrun; inversion Href; subst. repeat split; auto.
   - (* PCall *)
-    cbn [mrun ref_run] in Hrun, Href. exact (IHp st Hbound _ _ _ Hrun _ _ _ Href).
+    cbn [mrun ref_run] in Hrun, Href.
+    destruct (run p st) as [[t1 r1] s1] eqn:E1.
+    destruct (ref_run (depth st) (msg st) p) as [[t01 r01] c1] eqn:R1.
+    destruct (IHp _ _ st Hok Hbound _ _ _ E1 _ _ _ R1) as (-> & Hb1 & Hm1 & Hres1).
+    inversion Hrun; inversion Href; subst.
+    split; [reflexivity|]. split; [exact Hb1|]. split; [reflexivity|].
+    destruct r01 as [ | k m | k ].
+    + destruct Hres1 as (-> & Hact). cbn. auto.
+    + destruct Hres1 as (Ho & Hm & ->). cbn [rfn_end]. repeat split; auto.
+      unfold jump_or_die. destruct (bufs st'); reflexivity.
+    + destruct Hres1 as (-> & Hact). destruct k; cbn; auto.
 Qed.
 
 End Refinement.
@@ -172,7 +235,8 @@ Proof. reflexivity. Qed.
 
 Definition mach := mrun exc_max_depth clear_active_on_catch throw_records_obj_after_format try_keeps_obj.
 
-Lemma machine_refines_structured : forall p st,
+Lemma machine_refines_structured : forall p ret brk st,
+  exits_ok ret brk p = true ->
   depth st + nesting p <= exc_max_depth ->
   let '(tr, r, st') := mach p st in
   let '(tr0, r0, c') := ref_run (depth st) (msg st) p in
@@ -185,55 +249,57 @@ Lemma machine_refines_structured : forall p st,
       | [] => r = MDied (Some k) m
       | t :: _ => r = MJump t
       end
+  | RExit k => r = MExit k /\ (active st = false -> active st' = false)
   end.
 Proof.
-  intros p st Hb. unfold mach. rewrite clear_active_generated, obj_after_format_generated.
+  intros p ret brk st Hok Hb. unfold mach. rewrite clear_active_generated, obj_after_format_generated.
   destruct (mrun exc_max_depth true true try_keeps_obj p st) as [[tr r] st'] eqn:E.
   destruct (ref_run (depth st) (msg st) p) as [[tr0 r0] c'] eqn:R.
-  destruct (refine exc_max_depth try_keeps_obj p st Hb _ _ _ E _ _ _ R) as (-> & Hbufs & Hmsg & Hres).
+  destruct (refine exc_max_depth try_keeps_obj p ret brk st Hok Hb _ _ _ E _ _ _ R) as (-> & Hbufs & Hmsg & Hres).
   split; [reflexivity|]. split; [exact (depth_bufs _ _ Hbufs)|]. split; [exact Hbufs|]. split; [exact Hmsg|].
-  destruct r0 as [|k m]; [exact Hres|].
+  destruct r0 as [|k m|k]; [exact Hres| |exact Hres].
   destruct Hres as (Ho & Hm & ->). split; [exact Ho|]. split; [exact Hm|].
   unfold jump_or_die. rewrite Hbufs. destruct (bufs st); [now rewrite Ho, Hm | reflexivity].
 Qed.
 
 (* a whole program, started on the fresh record of a thread (no object, empty message) *)
-Lemma whole_program : forall p, nesting p <= exc_max_depth ->
+Lemma whole_program : forall p, exits_ok true false p = true -> nesting p <= exc_max_depth ->
   let '(tr, r, st') := mach p st_init in
   let '(tr0, r0, c') := ref_run 0 0 p in
   tr = tr0 /\ depth st' = 0 /\
-  r = match r0 with RNormal => MNormal | RRaised k m => MDied (Some k) m end.
+  r = match r0 with RNormal => MNormal | RRaised k m => MDied (Some k) m | RExit k => MExit k end.
 Proof.
-  intros p Hb.
-  pose proof (machine_refines_structured p st_init) as H. cbn [depth st_init bufs length Nat.add] in H.
+  intros p Hok Hb.
+  pose proof (machine_refines_structured p true false st_init Hok) as H. cbn [depth st_init bufs length Nat.add] in H.
   specialize (H Hb).
   destruct (mach p st_init) as [[tr r] st'].
   change (depth st_init) with 0 in H. change (msg st_init) with 0 in H.
   destruct (ref_run 0 0 p) as [[tr0 r0] c'].
   destruct H as (-> & Hd & _ & _ & Hres). split; [reflexivity|]. split; [exact Hd|].
-  destruct r0; [apply Hres | apply Hres].
+  destruct r0; apply Hres.
 Qed.
 
 (* a try block whose body ends normally — in particular one whose exceptions were all handled
    by blocks inside it — never runs its handler, whatever its filter *)
 Lemma handled_not_seen_outside : forall B fs h st,
+  exits_ok false false B = true ->
   depth st + S (nesting B) <= exc_max_depth ->
   snd (fst (ref_run (S (depth st)) (msg st) B)) = RNormal ->
   let '(tr, r, st') := mach (PTry B fs h) st in
   tr = fst (fst (ref_run (S (depth st)) (msg st) B)) /\ r = MNormal /\ depth st' = depth st /\ active st' = false.
 Proof.
-  intros B fs h st Hb HN. unfold mach. rewrite clear_active_generated, obj_after_format_generated.
+  intros B fs h st Hok Hb HN. unfold mach. rewrite clear_active_generated, obj_after_format_generated.
   cbn [mrun]. unfold exception_try.
   assert (Hne : (depth st =? exc_max_depth) = false) by (apply Nat.eqb_neq; lia).
   rewrite Hne.
-  set (s0 := MS (if try_keeps_obj then obj st else None) (msg st) (depth st :: bufs st) false).
+  set (s0 := MS (if try_keeps_obj then obj st else None) (msg st) (S (depth st) :: bufs st) false).
   assert (Hd0 : depth s0 = S (depth st)) by reflexivity.
   assert (Hm0 : msg s0 = msg st) by reflexivity.
   destruct (mrun exc_max_depth true true try_keeps_obj B s0) as [[t1 r1] s1] eqn:E1.
   rewrite <- Hd0, <- Hm0 in HN |- *.
   destruct (ref_run (depth s0) (msg s0) B) as [[t01 r01] c1] eqn:R1. cbn [snd fst] in *. subst r01.
   assert (Hb0 : depth s0 + nesting B <= exc_max_depth) by (rewrite Hd0; lia).
-  destruct (refine exc_max_depth try_keeps_obj B s0 Hb0 _ _ _ E1 _ _ _ R1) as (-> & Hb1 & _ & -> & Hact).
+  destruct (refine exc_max_depth try_keeps_obj B false false s0 Hok Hb0 _ _ _ E1 _ _ _ R1) as (-> & Hb1 & _ & -> & Hact).
   specialize (Hact eq_refl).
   unfold exception_try_end. rewrite Hb1. cbn [bufs s0].
   unfold exception_catch. cbn [active]. rewrite Hact. cbn. auto.
@@ -286,46 +352,55 @@ Qed.
 
 Lemma ref_run_eval : forall p d c t r c', ref_run d c p = (t, r, c') -> eval d c p t r c'.
 Proof.
-  induction p as [ | n | p IHp q IHq | k m f IHf | b IHb fs h IHh | p IHp ]; intros d c t r c' H; cbn [ref_run] in H.
+  induction p as [ | n | p IHp q IHq | k m f IHf | b IHb fs h IHh | k0 | p IHp ]; intros d c t r c' H; cbn [ref_run] in H.
   - inversion H; subst. constructor.
   - inversion H; subst. constructor.
   - destruct (ref_run d c p) as [[t1 r1] c1] eqn:R1. apply IHp in R1.
-    destruct r1 as [|k m].
+    destruct r1 as [|k m|k].
     + destruct (ref_run d c1 q) as [[t2 r2] c2] eqn:R2. apply IHq in R2.
       inversion H; subst. eapply EvSeqNormal; eassumption.
-    + inversion H; subst. now apply EvSeqRaised.
+    + inversion H; subst. apply EvSeqStop; [exact R1 | discriminate].
+    + inversion H; subst. apply EvSeqStop; [exact R1 | discriminate].
   - destruct (ref_run d c f) as [[t1 r1] c1] eqn:R1. apply IHf in R1.
-    destruct r1 as [|k' m']; inversion H; subst; [now apply EvThrow | now apply EvThrowEscaped].
+    destruct (rfn_end r1) eqn:Hr; inversion H; subst.
+    + eapply EvThrow; eassumption.
+    + rewrite <- Hr. apply EvThrowEscaped; [exact R1 | rewrite Hr; discriminate].
+    + rewrite <- Hr. apply EvThrowEscaped; [exact R1 | rewrite Hr; discriminate].
   - destruct (ref_run (S d) c b) as [[t1 r1] c1] eqn:R1. apply IHb in R1.
-    destruct r1 as [|k m].
+    destruct r1 as [|k m|k].
     + inversion H; subst. now apply EvTryNormal.
     + destruct (matches fs k) eqn:Hm.
       * destruct (ref_run d c1 h) as [[t2 r2] c2] eqn:R2. apply IHh in R2.
         inversion H; subst. eapply EvTryHandled; [exact R1 | now apply matches_spec | exact R2].
       * apply matches_false_spec in Hm. inversion H; subst. now apply EvTryPassed.
-  - constructor. now apply IHp.
+    + inversion H; subst. now apply EvTryLeft.
+  - inversion H; subst. constructor.
+  - destruct (ref_run d c p) as [[t1 r1] c1] eqn:R1. apply IHp in R1.
+    inversion H; subst. now constructor.
 Qed.
 
 Lemma eval_ref_run : forall d c p t r c', eval d c p t r c' -> ref_run d c p = (t, r, c').
 Proof.
   induction 1; cbn [ref_run]; try reflexivity.
   - now rewrite IHeval1, IHeval2.
+  - rewrite IHeval. destruct r; [contradiction | reflexivity | reflexivity].
+  - rewrite IHeval. now rewrite H0.
+  - rewrite IHeval. destruct (rfn_end r1) eqn:Hr; [contradiction | reflexivity | reflexivity].
   - now rewrite IHeval.
-  - now rewrite IHeval.
-  - now rewrite IHeval.
-  - exact IHeval.
   - now rewrite IHeval.
   - rewrite IHeval1. assert (Hm : matches fs k = true) by now apply matches_spec.
     now rewrite Hm, IHeval2.
   - rewrite IHeval. assert (Hm : matches fs k = false) by now apply matches_false_spec.
     now rewrite Hm.
+  - now rewrite IHeval.
 Qed.
 
 Lemma eval_iff_ref_run : forall d c p t r c', eval d c p t r c' <-> ref_run d c p = (t, r, c').
 Proof. intros. split; [apply eval_ref_run | apply ref_run_eval]. Qed.
 
 (* the machine against the relation *)
-Lemma machine_follows_eval : forall p st t r0 c',
+Lemma machine_follows_eval : forall p ret brk st t r0 c',
+  exits_ok ret brk p = true ->
   depth st + nesting p <= exc_max_depth ->
   eval (depth st) (msg st) p t r0 c' ->
   let '(tr, r, st') := mach p st in
@@ -334,30 +409,32 @@ Lemma machine_follows_eval : forall p st t r0 c',
   | RNormal => r = MNormal
   | RRaised k m => obj st' = Some k /\ msg st' = m /\
                    match bufs st with [] => r = MDied (Some k) m | b :: _ => r = MJump b end
+  | RExit k => r = MExit k
   end.
 Proof.
-  intros p st t r0 c' Hb He. apply eval_ref_run in He.
-  pose proof (machine_refines_structured p st Hb) as H.
+  intros p ret brk st t r0 c' Hok Hb He. apply eval_ref_run in He.
+  pose proof (machine_refines_structured p ret brk st Hok Hb) as H.
   destruct (mach p st) as [[tr r] st']. rewrite He in H.
   destruct H as (-> & Hd & _ & Hm & Hres). split; [reflexivity|]. split; [exact Hd|]. split; [exact Hm|].
-  destruct r0; [apply Hres | exact Hres].
+  destruct r0; [apply Hres | exact Hres | apply Hres].
 Qed.
 
 (* A try block enters its handler exactly when its body lets an exception escape that its filter
-   accepts; the handler is then entered once, with that exception bound. *)
+   accepts; the handler is then entered once, with that exception bound; the block ends as the
+   handler ends (a handler left by break / continue ends the block normally). *)
 Lemma handler_runs_iff : forall d c b fs h t r c',
   eval d c (PTry b fs h) t r c' ->
   forall t1 r1 c1, eval (S d) c b t1 r1 c1 ->
   ((exists k m, r1 = RRaised k m /\ accepts fs k) <->
    (exists k m t2, t = t1 ++ EHandler k m d :: t2)) /\
   (forall k m t2, t = t1 ++ EHandler k m d :: t2 ->
-     r1 = RRaised k m /\ exists r2, eval d c1 h t2 r2 c' /\ r = r2).
+     r1 = RRaised k m /\ exists r2, eval d c1 h t2 r2 c' /\ r = rhandler_end r2).
 Proof.
   intros d c b fs h t r c' He t1 r1 c1 Hb.
   apply eval_ref_run in He. apply eval_ref_run in Hb. cbn [ref_run] in He. rewrite Hb in He.
   assert (Hnil : forall (l : list event) x l', l <> l ++ x :: l').
   { intros l x l' E. apply (f_equal (@length event)) in E. rewrite app_length in E. cbn in E. lia. }
-  destruct r1 as [|k m].
+  destruct r1 as [|k m|k].
   - inversion He; subst. split.
     + split; [intros (k & m & Hk & _); discriminate | intros (k & m & t2 & E); now apply Hnil in E].
     + intros k m t2 E. now apply Hnil in E.
@@ -365,12 +442,15 @@ Proof.
     + destruct (ref_run d c1 h) as [[t2 r2] c2] eqn:Rh. inversion He; subst. split.
       * split; [intros _; now exists k, m, t2 | intros _; exists k, m; split; [reflexivity | now apply matches_spec]].
       * intros k' m' t2' E. apply app_inv_head in E. inversion E; subst.
-        split; [reflexivity|]. exists r. split; [now apply eval_iff_ref_run | reflexivity].
+        split; [reflexivity|]. exists r2. split; [now apply eval_iff_ref_run | reflexivity].
     + inversion He; subst. assert (Hm' := Hm). apply matches_false_spec in Hm. split.
       * split.
         -- intros (k' & m' & Hk & Hacc). inversion Hk; subst. apply matches_spec in Hacc. congruence.
         -- intros (k' & m' & t2 & E). now apply Hnil in E.
       * intros k' m' t2 E. now apply Hnil in E.
+  - inversion He; subst. split.
+    + split; [intros (k' & m & Hk & _); discriminate | intros (k' & m & t2 & E); now apply Hnil in E].
+    + intros k' m t2 E. now apply Hnil in E.
 Qed.
 
 (* A non-matching exception continues to the nearest enclosing matching handler: wrap a raising
@@ -395,7 +475,7 @@ Lemma nearest_matching_handler : forall pre fs h p d c t1 k m c1,
   Forall (fun lv => matches (fst lv) k = false) pre ->
   matches fs k = true ->
   ref_run d c (chain (pre ++ [(fs, h)]) p) =
-    let '(t2, r2, c2) := ref_run d c1 h in (t1 ++ EHandler k m d :: t2, r2, c2).
+    let '(t2, r2, c2) := ref_run d c1 h in (t1 ++ EHandler k m d :: t2, rhandler_end r2, c2).
 Proof.
   intros pre fs h p d c t1 k m c1 Hp Hall Hm.
   rewrite chain_app. cbn [chain ref_run].
@@ -419,7 +499,8 @@ Proof.
 Qed.
 
 (* the two chain facts for the machine *)
-Lemma machine_nearest_matching_handler : forall pre fs h p st t1 k m c1,
+Lemma machine_nearest_matching_handler : forall pre fs h p ret brk st t1 k m c1,
+  exits_ok ret brk (chain (pre ++ [(fs, h)]) p) = true ->
   depth st + nesting (chain (pre ++ [(fs, h)]) p) <= exc_max_depth ->
   ref_run (S (length pre + depth st)) (msg st) p = (t1, RRaised k m, c1) ->
   Forall (fun lv => rejects (fst lv) k) pre ->
@@ -429,27 +510,28 @@ Lemma machine_nearest_matching_handler : forall pre fs h p st t1 k m c1,
   tr = t1 ++ EHandler k m (depth st) :: t2 /\ depth st' = depth st /\
   (r2 = RNormal -> r = MNormal).
 Proof.
-  intros pre fs h p st t1 k m c1 Hb Hp Hall Hm.
-  pose proof (machine_refines_structured _ st Hb) as H.
+  intros pre fs h p ret brk st t1 k m c1 Hok Hb Hp Hall Hm.
+  pose proof (machine_refines_structured _ ret brk st Hok Hb) as H.
   destruct (mach (chain (pre ++ [(fs, h)]) p) st) as [[tr r] st'].
   rewrite (nearest_matching_handler pre fs h p (depth st) (msg st) t1 k m c1) in H.
   - destruct (ref_run (depth st) c1 h) as [[t2 r2] c2].
     destruct H as (-> & Hd & _ & _ & Hres). split; [reflexivity|]. split; [exact Hd|].
-    intros ->. apply Hres.
+    intros ->. cbn [rhandler_end] in Hres. apply Hres.
   - exact Hp.
   - eapply Forall_impl; [|exact Hall]. intros lv Hlv. now apply matches_false_spec.
   - now apply matches_spec.
 Qed.
 
 Lemma machine_nobody_matches : forall pre p t1 k m c1,
+  exits_ok true false (chain pre p) = true ->
   nesting (chain pre p) <= exc_max_depth ->
   ref_run (length pre) 0 p = (t1, RRaised k m, c1) ->
   Forall (fun lv => rejects (fst lv) k) pre ->
   let '(tr, r, st') := mach (chain pre p) st_init in
   tr = t1 /\ r = MDied (Some k) m /\ depth st' = 0.
 Proof.
-  intros pre p t1 k m c1 Hb Hp Hall.
-  pose proof (whole_program _ Hb) as H.
+  intros pre p t1 k m c1 Hok Hb Hp Hall.
+  pose proof (whole_program _ Hok Hb) as H.
   destruct (mach (chain pre p) st_init) as [[tr r] st'].
   rewrite (nobody_matches pre p 0 t1 k m c1) in H.
   - destruct H as (-> & Hd & ->). auto.
@@ -515,9 +597,9 @@ Proof.
   intros o1 o2 m1 m2 fs Hacc. apply matches_spec in Hacc.
   set (P := PSeq (PTry (PThrow o1 m1 PSkip) [] PSkip) (PTry (PThrow o2 m2 PSkip) fs PSkip)).
   assert (Hn : nesting P <= exc_max_depth) by (apply Nat.leb_le; reflexivity).
-  pose proof (whole_program P Hn) as H.
+  pose proof (whole_program P eq_refl Hn) as H.
   destruct (mach P st_init) as [[tr r] st']. cbn [fst].
-  unfold P in H. cbn [ref_run matches app] in H. rewrite Hacc in H. cbn [app] in H.
+  unfold P in H. cbn [ref_run matches app rfn_end rhandler_end] in H. rewrite Hacc in H. cbn [ref_run app rfn_end rhandler_end] in H.
   destruct H as (-> & _ & ->). reflexivity.
 Qed.
 
@@ -548,3 +630,32 @@ Lemma try_clearing_obj_refuted_for_old_order :
   fst (mrun exc_max_depth true false false fmt_witness_quiet st_init) = ([], MNormal) /\
   fst (mrun exc_max_depth true true false fmt_witness_quiet st_init) = ([EHandler 0 5 0; ETick 1 0], MNormal).
 Proof. repeat split; vm_compute; reflexivity. Qed.
+
+(* ------------------------------------------------------------------ handlers left early *)
+
+(* An exception handled by a handler that is left early — by break, by continue, or by return from
+   the function the inner block stands in — is not seen by the enclosing block either: the outer
+   handler stays out, whatever its filter, and the flag is clear afterwards.
+   (Instance of handled_not_seen_outside; [early k] is the inner construct for each exit kind.) *)
+Definition early (k : exit_kind) (o m : nat) : prog :=
+  match k with
+  | XReturn => PCall (PTry (PThrow o m PSkip) [] (PSeq (PTick 1) (PSeq (PExit XReturn) (PTick 9))))
+  | _ => PTry (PThrow o m PSkip) [] (PSeq (PTick 1) (PSeq (PExit k) (PTick 9)))
+  end.
+
+Lemma early_exit_not_seen_outside : forall k o m fs' h' st,
+  depth st + 2 <= exc_max_depth ->
+  let '(tr, r, st') := mach (PTry (PSeq (early k o m) (PTick 2)) fs' h') st in
+  tr = [EHandler o (set_msg m (msg st)) (S (depth st)); ETick 1 (S (depth st)); ETick 2 (S (depth st))]
+  /\ r = MNormal /\ depth st' = depth st /\ active st' = false.
+Proof.
+  intros k o m fs' h' st Hb.
+  pose proof (handled_not_seen_outside (PSeq (early k o m) (PTick 2)) fs' h' st) as H.
+  assert (Hok : exits_ok false false (PSeq (early k o m) (PTick 2)) = true) by (destruct k; reflexivity).
+  assert (Hn : depth st + S (nesting (PSeq (early k o m) (PTick 2))) <= exc_max_depth) by (destruct k; cbn; lia).
+  assert (HN : ref_run (S (depth st)) (msg st) (PSeq (early k o m) (PTick 2))
+               = ([EHandler o (set_msg m (msg st)) (S (depth st)); ETick 1 (S (depth st)); ETick 2 (S (depth st))],
+                  RNormal, set_msg m (msg st))) by (destruct k; reflexivity).
+  specialize (H Hok Hn). rewrite HN in H. cbn [fst snd] in H. specialize (H eq_refl).
+  destruct (mach (PTry (PSeq (early k o m) (PTick 2)) fs' h') st) as [[tr r] st']. exact H.
+Qed.
